@@ -679,5 +679,5 @@ META = {
     "themselves (tokenizer regexes, literal_eval) are not decided.",
     "note": "Decides the listed structural clauses, not the behaviour. The grammar is read by importing "
     "xonsh.parsers from the analysed tree in a helper subprocess (static initialisers only; nothing is parsed).",
-    "more": 'Also decided: every return path of the @() helper is a one-element list of the value or an unfiltered element-wise map over it. Every grammar action that reads the raw prefix hands `is_raw` on to the node it builds (raw f-strings on 3.12 included); f-string chunk values come from the host parser. Nothing on the launch path edits in place the result of a memoised function (a cached interpreter list extended with one run\'s arguments would prefix the next run\'s argv).',
+    "more": 'Also decided: every return path of the @() helper is a one-element list of the value or an unfiltered element-wise map over it. Every grammar action that reads the raw prefix hands `is_raw` on to the node it builds (raw f-strings on 3.12 included); f-string chunk values come from the host parser. Nothing on the launch path edits in place the result of a memoised function (a cached interpreter list extended with one run\'s arguments would prefix the next run\'s argv). Lexer.split (what @$() output is split with) answers from the token stream on every path; the text is never split by a string method.',
 }
